@@ -403,7 +403,10 @@ Record rstate : Type := {
   rs_ev : list string;                      (* node-level events, any order                *)
   rs_res : option (out val);
   rs_opts : list (string * nopts);          (* the option map of this call                 *)
-  rs_max : nat                              (* step limit of this call                     *)
+  rs_max : nat;                             (* step limit of this call                     *)
+  (* the context of THIS call: Some n = it is found cancelled at the top of the main loop once n
+     supersteps are complete (a node of the run, or the caller, cancelled it during superstep n-1) *)
+  rs_cancel : option nat
 }.
 
 Definition chan_init (g : graph) (k : string) : chan :=
@@ -937,7 +940,7 @@ Fixpoint resolve_all (g : graph) (st : option stv) (done : list (string * val)) 
 Definition next_tasks (g : graph) (done : list (string * val)) (r : rstate) (ev : list string) : rstate :=
   let finish (o : out val) (evs : list string) :=
     {| rs_chans := rs_chans r; rs_next := []; rs_st := rs_st r; rs_steps := rs_steps r;
-       rs_ev := rs_ev r +++ ev +++ evs; rs_res := Some o; rs_opts := rs_opts r; rs_max := rs_max r |} in
+       rs_ev := rs_ev r +++ ev +++ evs; rs_res := Some o; rs_opts := rs_opts r; rs_max := rs_max r; rs_cancel := rs_cancel r |} in
   let (rc, bev) := resolve_all g (rs_st r) done (rs_chans r) in
   match rc with
   | Fail e => finish (Fail e) bev
@@ -950,25 +953,25 @@ Definition next_tasks (g : graph) (done : list (string * val)) (r : rstate) (ev 
           | Some v => finish (OK v) bev
           | None =>
               {| rs_chans := cs'; rs_next := map (fun t => (fst t, with_statics g (fst t) (snd t))) ready; rs_st := rs_st r; rs_steps := rs_steps r;
-                 rs_ev := rs_ev r +++ ev +++ bev; rs_res := None; rs_opts := rs_opts r; rs_max := rs_max r |}
+                 rs_ev := rs_ev r +++ ev +++ bev; rs_res := None; rs_opts := rs_opts r; rs_max := rs_max r; rs_cancel := rs_cancel r |}
           end
       end
   end.
 
 (* the top of runner.run for a call: fresh channels, the option map of THIS call, the local
    state from the generator, the first tasks from START *)
-Definition run_init (g : graph) (input : val) (opts : list copt) (maxo : option nat) (parent_st : option stv) : rstate :=
+Definition run_init (g : graph) (input : val) (opts : list copt) (maxo : option nat) (cancel : option nat) (parent_st : option stv) : rstate :=
   let st := if g_hasstate g then Some st_new else parent_st in
   let ev0 := if N.eqb (g_statekind g) 1 then ["gen"] else [] in
   let mx := match maxo with Some m => m | None => g_max g end in
   match extract_opts (g_nodes g) opts [] with
   | Fail e =>
       {| rs_chans := []; rs_next := []; rs_st := parent_st; rs_steps := O; rs_ev := []; rs_res := Some (Fail e);
-         rs_opts := []; rs_max := mx |}
+         rs_opts := []; rs_max := mx; rs_cancel := cancel |}
   | OK om =>
       next_tasks g [(START, input)]
         {| rs_chans := chans_init g; rs_next := []; rs_st := st; rs_steps := O; rs_ev := []; rs_res := None;
-           rs_opts := om; rs_max := mx |} ev0
+           rs_opts := om; rs_max := mx; rs_cancel := cancel |} ev0
   end.
 
 Fixpoint iter_opt {A} (n : nat) (f : A -> option A) (a : A) : A :=
@@ -983,6 +986,10 @@ Definition run_bound (g : graph) (mx : nat) : nat :=
 (* state seen by the caller of a nested graph after the nested run *)
 Definition st_after (g : graph) (parent_st : option stv) (r : rstate) : option stv :=
   if g_hasstate g then parent_st else rs_st r.
+
+(* the check of the run's own context at the top of every iteration of the main loop *)
+Definition cancelled (r : rstate) : bool :=
+  match rs_cancel r with Some n => Nat.leb n (rs_steps r) | None => false end.
 
 Section Step.
   (* how a nested graph is run to completion inside one node execution *)
@@ -1086,8 +1093,9 @@ Section Step.
     | None =>
         let finish (o : out val) (st : option stv) (evs : list string) :=
           Some {| rs_chans := rs_chans r; rs_next := []; rs_st := st; rs_steps := rs_steps r;
-                  rs_ev := rs_ev r +++ evs; rs_res := Some o; rs_opts := rs_opts r; rs_max := rs_max r |} in
-        if negb (g_dag g) && Nat.leb (rs_max r) (rs_steps r) then finish (Fail "maxsteps") (rs_st r) []
+                  rs_ev := rs_ev r +++ evs; rs_res := Some o; rs_opts := rs_opts r; rs_max := rs_max r; rs_cancel := rs_cancel r |} in
+        if cancelled r then finish (Fail "other") (rs_st r) []          (* context has been canceled, graph_run.go:273 *)
+        else if negb (g_dag g) && Nat.leb (rs_max r) (rs_steps r) then finish (Fail "maxsteps") (rs_st r) []
         else
           match rs_next r with
           | [] => finish (Fail "other") (rs_st r) []                     (* no tasks to execute *)
@@ -1099,7 +1107,7 @@ Section Step.
               | None =>
                   Some (next_tasks g done
                           {| rs_chans := rs_chans r; rs_next := []; rs_st := st2; rs_steps := S (rs_steps r);
-                             rs_ev := rs_ev r; rs_res := None; rs_opts := rs_opts r; rs_max := rs_max r |}
+                             rs_ev := rs_ev r; rs_res := None; rs_opts := rs_opts r; rs_max := rs_max r; rs_cancel := rs_cancel r |}
                           (ev1 +++ ev2))
               end
           end
@@ -1113,7 +1121,7 @@ Fixpoint sstep (d : nat) (g : graph) (r : rstate) {struct d} : option rstate :=
        match d with
        | O => (Fail "FUEL", pst, [])
        | S d' =>
-           let r0 := run_init g' v opts None pst in
+           let r0 := run_init g' v opts None None pst in
            let rf := iter_opt (run_bound g' (rs_max r0)) (sstep d' g') r0 in
            match rs_res rf with
            | Some o => (o, st_after g' pst rf, rs_ev rf)
@@ -1131,6 +1139,8 @@ Record cobj : Type := { co_graph : graph; co_depth : nat }.
    message future (react.WithMessageFuture) and renders what came through it after the result *)
 Record call : Type := {
   ca_in : val; ca_opts : list copt; ca_max : option nat; ca_fut : bool;
+  (* Some n: the call's own context is cancelled during its superstep n-1 (by one of its nodes) *)
+  ca_cancel : option nat;
   (* "ckpt" kind only: a call is a whole interrupt / resume session on its own checkpoint id; the
      model runs it uninterrupted (resume equivalence is properties C05/C06) and the caller
      appends the trail of interrupts that the compile options imply *)
@@ -1157,9 +1167,9 @@ Fixpoint check_opts (d : nat) (ns : list node) (os : list copt) : bool :=
 
 Definition einit (c : cobj) (k : call) : rstate :=
   if check_opts (co_depth c) (g_nodes (co_graph c)) (ca_opts k)
-  then run_init (co_graph c) (ca_in k) (ca_opts k) (ca_max k) None
+  then run_init (co_graph c) (ca_in k) (ca_opts k) (ca_max k) (ca_cancel k) None
   else {| rs_chans := []; rs_next := []; rs_st := None; rs_steps := O; rs_ev := []; rs_res := Some (Fail "other");
-          rs_opts := []; rs_max := O |}.
+          rs_opts := []; rs_max := O; rs_cancel := None |}.
 
 (* observable of a finished run: rendered result and sorted node-level events.  The messages
    a run produced (model answers, tool messages) are kept as pseudo events "fut:<message>":
